@@ -1,4 +1,5 @@
 import PoryProofs.ListParse
+import PoryProofs.ListSwitch
 /-
 C14 (parser half) — "A movement block emits its steps in source order with `step * N` expanded to
 exactly N copies …; multipliers outside 1..9999 are rejected" — for the parser model
@@ -19,9 +20,14 @@ every assignment of token positions / literals):
 * `parse_mart_list`, `mart_bad_token_rejected` (a comma in particular) for mart lists;
 * `parseInt_*` (in `PoryProofs/ListParse.lean`): decide-checked facts on the base-0 literal rules.
 
-Not covered here (`…_partial` in the sense of the project rules): list elements that are
-`poryswitch` statements — the full statement is `parse_movement_list_full` below with `Item`
-extended by a poryswitch constructor; everything above is the poryswitch-free fragment.
+* `parse_movement_list_switch` : the FULL movement-list statement, for lists that may contain
+  (nested) `poryswitch (X) { V: elem … V { elems } … }` elements (`Items` / `expItems env` of
+  `PoryProofs/ListSwitch.lean`): the selected case (`env.switches`, fallback `_`, a later case
+  overrides an earlier one of the same name) is spliced in place, in source order; every case body
+  is parsed (so all of them must be well-formed). `parse_movement_list` is its poryswitch-free
+  instance (`parse_movement_list_of_switch`).
+
+Scope of the rejection theorems and of the mart theorems: lists without poryswitch elements.
 -/
 namespace Pory.C14b
 open Pory Pory.Parser Pory.C02P
@@ -63,7 +69,7 @@ theorem expand_cons_some (i : Item) (r : List Item) (a b : List Tok) (hi : i.exp
 
 /-- Every emitted step is one of the written step tokens (nothing invented). -/
 theorem expand_mem (items : List Item) (out : List Tok) (h : expand items = some out) (t : Tok)
-    (ht : t ∈ out) : ∃ i ∈ items, (∃ h1, i = .step t ∧ h1 = ()) ∨ (∃ s m, i = .stepMul t s m) := by
+    (ht : t ∈ out) : ∃ i ∈ items, i = .step t ∨ ∃ s m, i = .stepMul t s m := by
   induction items generalizing out with
   | nil => simp [expand] at h; subst h; simp at ht
   | cons i r ih =>
@@ -147,6 +153,46 @@ theorem parse_moves_operator (env : Env) (s : PState) (mv lp : Tok) (items : Lis
   have := parse_movement_list env .RPAREN (Or.inr rfl) s items rp rest hwf hrp out hex [] fuel hf
   unfold parseMovesOperator
   simp [hlp, this]
+
+/-! ### lists with poryswitch elements -/
+
+/-- **C14, parser half, full syntax.** As `parse_movement_list`, for lists whose elements may be
+(nested) poryswitch statements. Fuel: number of printed tokens + 1. -/
+theorem parse_movement_list_switch (env : Env) (closing : TT)
+    (hcl : closing = .RBRACE ∨ closing = .RPAREN) (s : PState) (items : Items) (close : Tok)
+    (rest : List Tok) (hwf : wfItems env items) (hclose : close.type = closing)
+    (out : List Tok) (hex : expItems env items = some out) (acc : List Tok) (fuel : Nat)
+    (hf : items.toks.length + 1 ≤ fuel) :
+    (parseListValue env (.movement closing) true fuel acc).run
+        (st s (items.toks ++ close :: rest)) =
+      .ok (acc ++ out, st s (close :: rest)) := by
+  have := needItems_le items
+  have hg : GoodClosing closing := by
+    rcases hcl with rfl | rfl
+    · exact good_rbrace
+    · exact good_rparen
+  exact itemsP env s items closing hg acc close rest hclose hwf out hex fuel (by omega)
+
+/-- The poryswitch-free theorem is an instance of the full one. -/
+theorem parse_movement_list_of_switch (env : Env) (closing : TT)
+    (hcl : closing = .RBRACE ∨ closing = .RPAREN) (s : PState) (items : List Item) (close : Tok)
+    (rest : List Tok) (hwf : ∀ i ∈ items, i.WF) (hclose : close.type = closing)
+    (out : List Tok) (hex : expand items = some out) (acc : List Tok) (fuel : Nat)
+    (hf : (printItems items).length + 1 ≤ fuel) :
+    (parseListValue env (.movement closing) true fuel acc).run
+        (st s (printItems items ++ close :: rest)) =
+      .ok (acc ++ out, st s (close :: rest)) := by
+  have := parse_movement_list_switch env closing hcl s (Items.ofList items) close rest
+    (Items.ofList_wf env items hwf) hclose out (by rw [Items.ofList_exp]; exact hex) acc fuel
+    (by rw [Items.ofList_toks]; exact hf)
+  rwa [Items.ofList_toks] at this
+
+/-- What a poryswitch element denotes: with the case table `cs` (newest first) of its cases, the
+entry for the switch value, else the entry for `_`, else nothing (lint mode) / an error. -/
+theorem expItem_sw (env : Env) (psw lp x rp lb rb : Tok) (cases : Cases)
+    (cs : List (String × List Tok)) (h : expCases env cases [] = some cs) :
+    expItem env (.sw psw lp x rp lb cases rb) = selectCase env x.lit cs := by
+  simp [expItem, h]
 
 /-! ### rejected multipliers -/
 
@@ -333,25 +379,6 @@ theorem mart_comma_rejected (env : Env) (s : PState) (items : List Tok) (c : Tok
       .error (newParseError c s!"expected mart item, but got '{c.lit}' instead") :=
   mart_bad_token_rejected env s items c tail hi (by simp [hc]) (by simp [hc]) (by simp [hc]) acc fuel hf
 
-/-! ### the full statement (not proved: poryswitch elements) -/
-
-/-- Full C14 parser statement: as `parse_movement_list`, for a reference syntax `ItemP` that also
-has `poryswitch (X) { case … }` elements, `printP`, and `expandP env.switches`. Stated abstractly
-over such a syntax; `parse_movement_list` is the instance without poryswitch elements. -/
-def parse_movement_list_full : Prop :=
-  ∀ (ItemP : Type) (wfP : ItemP → Prop) (printP : List ItemP → List Tok)
-    (expandP : List (String × String) → List ItemP → Option (List Tok))
-    (needP : List ItemP → Nat),
-    -- (`ItemP`, `printP`, `expandP` are meant to be the poryswitch-extended versions of `Item`,
-    -- `printItems`, `expand`; they are parameters here because they are not defined yet.)
-    ∀ (env : Env) (closing : TT), closing = .RBRACE ∨ closing = .RPAREN →
-    ∀ (s : PState) (items : List ItemP) (close : Tok) (rest : List Tok),
-      (∀ i ∈ items, wfP i) → close.type = closing →
-    ∀ (out : List Tok), expandP env.switches items = some out →
-    ∀ (acc : List Tok) (fuel : Nat), needP items ≤ fuel →
-      (parseListValue env (.movement closing) true fuel acc).run (st s (printP items ++ close :: rest)) =
-        .ok (acc ++ out, st s (close :: rest))
-
 /-! ### non-vacuity -/
 
 /-- `walk_up , walk_down * 0x3 face_left * 010 }` -/
@@ -398,6 +425,40 @@ example (env : Env) (s : PState) (rest : List Tok) :
       .ok ([tk .IDENT "ITEM_A", tk .IDENT "ITEM_B"], st s (tk .RBRACE "}" :: rest)) := by
   have := parse_mart_list env s [tk .IDENT "ITEM_A", tk .IDENT "ITEM_B"] (tk .RBRACE "}") rest
     (by simp) rfl [] 3 (by decide)
+  simpa using this
+
+/-- `walk_up poryswitch(GAME) { RUBY: walk_left  EMERALD { walk_down * 2 , walk_right }  _: face_up }`
+with `-s GAME=EMERALD` -/
+def exEnv : Env := { switches := [("GAME", "EMERALD")] }
+
+def exSwitch : Items :=
+  .cons (.plain (.step (tk .IDENT "walk_up")))
+  (.cons (.sw (tk .PORYSWITCH "poryswitch") (tk .LPAREN "(") (tk .IDENT "GAME") (tk .RPAREN ")")
+      (tk .LBRACE "{")
+      (.colon (tk .IDENT "RUBY") (tk .COLON ":") (.plain (.step (tk .IDENT "walk_left")))
+      (.brace (tk .IDENT "EMERALD") (tk .LBRACE "{")
+        (.cons (.plain (.stepMul (tk .IDENT "walk_down") (tk .MUL "*") (tk .INT "2")))
+        (.cons (.plain (.comma (tk .COMMA ",")))
+        (.cons (.plain (.step (tk .IDENT "walk_right"))) .nil)))
+        (tk .RBRACE "}")
+      (.colon (tk .IDENT "_") (tk .COLON ":") (.plain (.step (tk .IDENT "face_up"))) .nil)))
+      (tk .RBRACE "}"))
+  .nil)
+
+theorem exSwitch_exp : expItems exEnv exSwitch =
+    some [tk .IDENT "walk_up", tk .IDENT "walk_down", tk .IDENT "walk_down", tk .IDENT "walk_right"] := by
+  decide
+
+theorem exSwitch_wf : wfItems exEnv exSwitch := by
+  simp [exSwitch, wfItems, wfItem, wfCases, Item.WF, exEnv]
+
+example (s : PState) (rest : List Tok) :
+    (parseListValue exEnv (.movement .RBRACE) true 23 []).run
+        (st s (exSwitch.toks ++ tk .RBRACE "}" :: rest)) =
+      .ok ([tk .IDENT "walk_up", tk .IDENT "walk_down", tk .IDENT "walk_down", tk .IDENT "walk_right"],
+        st s (tk .RBRACE "}" :: rest)) := by
+  have := parse_movement_list_switch exEnv .RBRACE (Or.inl rfl) s exSwitch (tk .RBRACE "}") rest
+    exSwitch_wf rfl _ exSwitch_exp [] 23 (by decide)
   simpa using this
 
 end Pory.C14b
